@@ -185,3 +185,63 @@ Proof.
       * intros leaf [<-|H]; [lia|exact (B leaf H)].
       * destruct C as [C|(leaf & H1 & H2 & H3 & H4)]; [left; exact C|]. right. exists leaf. split; [right; exact H1|tauto].
 Qed.
+
+Lemma upd_same (l : list Z) c : upd l c (nth c l 0) = l.
+Proof.
+  apply list_ext_nth_error. intros j. rewrite nth_error_upd. destruct (Nat.eqb_spec j c) as [->|_]; [|reflexivity].
+  rewrite (nth_error_nth_Z l c). destruct (nth_error l c); reflexivity.
+Qed.
+Lemma pos_after_self pos cs : pos_after pos (map (fun c => (c, nth c pos 0)) cs) = pos.
+Proof.
+  induction cs as [|c t IH]; cbn [map]; [reflexivity|]. unfold pos_after in *. cbn [fold_left fst snd]. rewrite upd_same. exact IH.
+Qed.
+Lemma set_many_saved_value o cs : OInv o -> ovalue (set_many o (saved o cs)) = ovalue o.
+Proof.
+  intros H. destruct (set_many_spec (saved o cs) o H) as (I1 & N1 & PX & PY).
+  apply ovalue_ext; [exact I1|exact H|exact N1|]. split; [rewrite PX, xs_of_saved|rewrite PY, ys_of_saved]; apply pos_after_self.
+Qed.
+
+(* the value returned is the minimum of the value at entry and of the values of ALL enumerated leaves; the structure
+   changes only for a strict improvement, and then to the write-back of a leaf of that minimal value *)
+Theorem run_returns_minimum c rh nets s cs :
+  PInv c rh nets s -> NoDup cs -> (forall x, In x cs -> held (ps_d s) x = true) ->
+  exists rgs s' n, regions_of (ps_d s) cs cs = Some rgs /\ run s cs = Some (s', n) /\
+    let d := ps_d s in let o := ps_o s in let leaves := leaves_of d rgs in
+    n = length leaves /\
+    ovalue (ps_o s') <= ovalue o /\
+    (forall leaf, In leaf leaves -> ovalue (ps_o s') <= leaf_value_of d o leaf) /\
+    ((ps_d s' = d /\ ovalue (ps_o s') = ovalue o) \/
+     (exists leaf, In leaf leaves /\ ovalue (ps_o s') = leaf_value_of d o leaf /\ ovalue (ps_o s') < ovalue o /\
+                   wb d (rev (sort_asc (map p_id (registered rgs)))) leaf = Some (ps_d s'))).
+Proof.
+  intros HP NDc Hh. destruct (run_is_preorder c rh nets s cs HP NDc Hh) as (rgs & R & Hok & Hrun). cbn zeta in Hok, Hrun.
+  destruct HP as (HR & HI & Hl & ND & HO & HN & HC). destruct s as [d o]. cbn [ps_d ps_o] in *.
+  set (cells := rev (sort_asc (map p_id (registered rgs)))) in *. set (leaves := leaves_of d rgs) in *.
+  exists rgs, (preorder {| ps_d := d; ps_o := o |} cells leaves), (length leaves). split; [exact R|]. split; [exact Hrun|]. cbn zeta.
+  split; [reflexivity|]. destruct Hok as (_ & HFl & Hwb). cbn [ps_d ps_o] in Hwb.
+  destruct (prscan_ascan d o cells leaves HO HFl o (ovalue o) None 0%nat (base_refl cells o HO)) as (Ts & Bs). cbn zeta in Ts, Bs.
+  change (fold_left _ leaves (o, ovalue o, None)) with (prscan d o leaves) in Ts, Bs.
+  unfold preorder. cbn [ps_d ps_o]. destruct (prscan d o leaves) as [[o' bv] b]. cbn [fst snd] in Ts, Bs.
+  destruct (astep_fold_min d o leaves (ovalue o) None 0%nat) as (A & B & C). cbn zeta in A, B, C. rewrite <- Ts in A, B, C. cbn [fst snd] in A, B, C.
+  destruct b as [leaf|].
+  - destruct C as [[_ C]|(leaf' & H1 & [= <-] & H3 & H4)]; [discriminate|]. destruct Hwb as (d' & Wb & _). rewrite Wb. cbn [ps_d ps_o].
+    assert (E : set_many o' (leaf_moves d leaf) = set_many o (leaf_moves d leaf)).
+    { apply (set_many_same cells o); [exact HO|exact Bs|apply base_refl; exact HO|]. rewrite Forall_forall in HFl.
+      intros j Hj. rewrite fst_leaf_moves. apply (HFl leaf H1). exact Hj. }
+    rewrite E. fold (leaf_value_of d o leaf). rewrite <- H3. split; [exact A|]. split; [exact B|]. right. exists leaf. tauto.
+  - destruct C as [[C _]|(leaf' & _ & C & _)]; [|discriminate]. cbn [ps_d ps_o].
+    assert (E : set_many o' (saved o cells) = set_many o (saved o cells)).
+    { apply (set_many_same cells o); [exact HO|exact Bs|apply base_refl; exact HO|]. intros j Hj. unfold saved. rewrite map_map. cbn [fst]. rewrite map_id. exact Hj. }
+    rewrite E, (set_many_saved_value o cells HO). split; [lia|]. split; [intros leaf Hin; specialize (B leaf Hin); lia|]. left. split; reflexivity.
+Qed.
+
+(* C02: the closed pass exposes a legal circuit and leaves no cell unplaced *)
+Theorem run_exposes_legal c rh nets s cs :
+  std_design c rh -> legal c -> PInv c rh nets s -> NoDup cs -> (forall x, In x cs -> held (ps_d s) x = true) ->
+  exists s' n, run s cs = Some (s', n) /\ Inv (ps_d s') /\ d_loose (ps_d s') = [] /\ Rel c rh (ps_d s') /\
+               legal (write_back c (ps_d s')).
+Proof.
+  intros SD HL HP NDc Hh. destruct (run_keeps_invariant c rh nets s cs SD HP NDc Hh) as (s' & n & Hrun & HP' & _).
+  exists s', n. split; [exact Hrun|]. pose proof (exposed_legal_inv c rh nets s' SD HL HP') as L.
+  destruct HP' as (HR & HI & Hl & _). tauto.
+Qed.
